@@ -36,7 +36,8 @@ BOUND = (
     'number of farm.ARCHIVE settings and every order of background completions relative to them, in 4 modes '
     '(doctest; deferred x db.archive sync/async, reopen True/False), merged on the observable configuration; '
     'continued to the fixpoint (<= 12 triggers) so that the sequences start from every reachable '
-    'configuration; plus seeded un-merged random walks (quick 150 x <=25 events, thorough 3000 x <=40)'
+    'configuration; plus every un-merged history of <= 3 events (thorough: <= 5 events, 2 deferred modes) and '
+    'seeded un-merged random walks (quick 150 x <=25 events, thorough 3000 x <=40)'
 )
 CLAUSES = ['C10.edge', 'C10.reject', 'C10.rest', 'C10.active', 'C10.active.rest']
 
@@ -312,7 +313,7 @@ def explore(mode, n_triggers, deadline, coll, stats, samples):
                     (nxt if is_trigger else layer).append((h2, g2))
                     if is_trigger:
                         max_layer_with_new = depth + 1
-                    if len(samples) < 4 and len(h2) in (4, 7, 9) and not any(s['history'] == list(h2) for s in samples):
+                    if len(h2) in (4, 6, 8, 10) and not any(len(x['history']) == len(h2) and x['mode'] == mode for x in samples) and mode != MODES[0]:
                         samples.append({'mode': dict(mode), 'history': list(h2), 'ends_in': K.snap_dict(rig2.snapshot())})
         if not nxt:
             closed = True
@@ -324,6 +325,28 @@ def explore(mode, n_triggers, deadline, coll, stats, samples):
     stats['configs'] += len(seen)
     stats['fixpoint_triggers'] = max(stats.get('fixpoint_triggers', 0), max_layer_with_new)
     return closed
+
+
+def enumerate_unmerged(mode, max_len, deadline, coll, stats):
+    '''every history of at most max_len events (no merging at all); the oracle looks at the last event of each'''
+    count = 0
+    stack = [()]
+    while stack:
+        history = stack.pop()
+        if time.time() > deadline:
+            stats['timeout'] = True
+            break
+        rig, found, _, _, is_guarded = run_history(mode, history, False)
+        if history:
+            count += 1
+            stats['cases'] += 1
+            stats['events'] += len(history)
+            for v, idx in found:
+                coll.add(mode, history, idx, v, is_guarded)
+        if len(history) < max_len:
+            for event in reversed(available(rig)):
+                stack.append(history + (event,))
+    return count
 
 
 def random_walks(rng, count, max_len, deadline, coll, stats):
@@ -406,12 +429,19 @@ def documentation_checks(coll):
 def run(tier: str, seed: int) -> dict:
     t0 = time.time()
     thorough = tier == 'thorough'
-    deadline = t0 + (240 if thorough else 15)
+    deadline = t0 + (210 if thorough else 13)
     n_triggers = 1 + (6 if thorough else 5)
     coll = Collector()
     stats = collections.Counter()
     samples = []
     documentation_checks(coll)
+    try:
+        return _run(tier, seed, t0, thorough, deadline, n_triggers, coll, stats, samples)
+    finally:
+        K.scratch_remove()
+
+
+def _run(tier, seed, t0, thorough, deadline, n_triggers, coll, stats, samples):
     closed_all = True
     # each mode is continued to its fixpoint (every reachable configuration expanded), which contains the stated
     # bound when it is reached within HARD_CAP trigger events
@@ -419,22 +449,30 @@ def run(tier: str, seed: int) -> dict:
         closed = explore(mode, HARD_CAP, deadline, coll, stats, samples)
         closed_all = closed_all and closed
     bfs_cases = stats['cases']
+    # the same space again without any merging, as far as it is affordable: independent of the abstraction
+    plain_len = 5 if thorough else 3
+    plain = 0
+    for mode in (MODES[1:3] if thorough else MODES):
+        plain += enumerate_unmerged(mode, plain_len, deadline, coll, stats)
     rng = random.Random(seed)
-    walks = random_walks(rng, 3000 if thorough else 150, 40 if thorough else 25, deadline, coll, stats)
+    walks = random_walks(
+        rng, 3000 if thorough else 150, 40 if thorough else 25, t0 + (270 if thorough else 16), coll, stats
+    )
     exhaustive = closed_all and not stats.get('timeout')
     return {
         'cases': int(stats['cases']),
-        'distinct': int(stats['nontrivial'] + walks),
+        'distinct': int(stats['nontrivial'] + plain + walks),
         'rule': (
             'breadth-first over (configuration, event) pairs per mode: every pair is one replay of the real FSM '
             f'from boot plus the event; configurations merged on {list(K.SNAP_FIELDS)}; distinct = pairs whose '
             'event changed the configuration or moved the state, plus distinct random-walk histories. '
             f"The closure reached its fixpoint after {stats['fixpoint_triggers']} trigger events (bound asked: "
-            f"{n_triggers}); {stats['configs']} configurations, {bfs_cases} pairs, {walks} random walks, "
+            f"{n_triggers}); {stats['configs']} configurations, {bfs_cases} pairs; then every un-merged history of "
+            f"<= {plain_len} events ({plain} histories in {2 if thorough else 4} modes); {walks} random walks; "
             f"{stats['events']} events executed"
         ),
         'exhaustive': bool(exhaustive and stats['fixpoint_triggers'] <= HARD_CAP),
-        'samples': samples[:4],
+        'samples': samples[:5],
         'violations': coll.result(),
         'clauses': list(CLAUSES),
         'seconds': round(time.time() - t0, 2),
@@ -454,7 +492,10 @@ def replay(case: dict) -> dict:
             'observed': hits[0]['observed'] if hits else None,
             'expected': hits[0]['expected'] if hits else case.get('expected'),
         }
-    rig, found, last, _, _ = run_history(mode, history, False)
+    try:
+        rig, found, last, _, _ = run_history(mode, history, False)
+    finally:
+        K.scratch_remove()
     if last is None:
         return {'reproduced': False, 'observed': 'history not executable on this tree', 'expected': case.get('expected')}
     for (clause, sig, observed, expected), _ in found:
